@@ -1547,11 +1547,19 @@ def c04_warp_inverse_representation(ctx, cls, kernel):
             kw['kernel'] = getattr(T, kernel)(s_rep)
         t = getattr(T, cls)(S.PointCloud(s_rep, copy=False), S.PointCloud(t_rep, copy=False), **kw)
         tol = 1e-3 if pname == 'float32' else 1e-6
-        close(ctx, '%s/forward-interpolates' % pname, t.apply(src), tgt, tol)
         inv = t.pseudoinverse()
-        close(ctx, '%s/inverse-maps-target-landmarks-onto-source' % pname, inv.apply(tgt), src, tol)
         close(ctx, '%s/inverse-source-is-the-target' % pname, inv.source.points, tgt, 0)
         close(ctx, '%s/inverse-target-is-the-source' % pname, inv.target.points, src, 0)
+        if cls == 'PiecewiseAffine':
+            # (a landmark sits on the boundary of the triangulated domain, where floating-point containment is a coin toss:
+            #  the vertex clauses are proved symbolically in C04/pwa_pseudoinverse; here points just inside the hull)
+            xin = src.mean(0) + 0.9 * (src - src.mean(0))
+            y = t.apply(xin)
+            close(ctx, '%s/inverse-undoes-the-warp-inside-the-domain' % pname, inv.apply(y), xin, tol)
+            close(ctx, '%s/same-warp-as-for-float64-landmarks' % pname, y, getattr(T, cls)(S.PointCloud(src.copy()), S.PointCloud(tgt.copy())).apply(xin), tol)
+            continue
+        close(ctx, '%s/forward-interpolates' % pname, t.apply(src), tgt, tol)
+        close(ctx, '%s/inverse-maps-target-landmarks-onto-source' % pname, inv.apply(tgt), src, tol)
         close(ctx, '%s/forward-still-interpolates-after-taking-the-inverse' % pname, t.apply(src), tgt, tol)
         inv2 = inv.pseudoinverse()
         close(ctx, '%s/inverse-of-the-inverse-interpolates-forward' % pname, inv2.apply(src), tgt, tol)
